@@ -280,6 +280,11 @@ pub fn child_main() -> ! {
             if let Ok(n) = s.parse::<u64>() {
                 let l = libc::rlimit { rlim_cur: n, rlim_max: n };
                 libc::setrlimit(libc::RLIMIT_FSIZE, &l);
+                // "write error" flavour (disk full): the write that would pass byte n fails with
+                // EFBIG instead of killing the process, so ska's own error path runs
+                if std::env::var_os("SKASIM_FSIZE_ERROR").is_some() {
+                    libc::signal(libc::SIGXFSZ, libc::SIG_IGN);
+                }
             }
         }
     }
